@@ -130,3 +130,73 @@ def api_thread_sweep(ctx, kinds, n, key_prefix="threads"):
                                  "want": [np.asarray(a, dtype=float).tolist() for a in ref]})
                     break
     return ev, viol
+
+
+def api_copies_and_sizes(ctx, kinds, n, key_prefix="object"):
+    """two further things a result must not depend on (shared by C16 and C11):
+    (1) how many points ONE call evaluates: calls with more than 2**16 / 2**17 points against small calls at a random subset;
+    (2) whether the object is the original or a duplicate: copy.deepcopy / copy.copy / pickle round trip of the SRF and of its
+        generator must give the same field at the same points and the same public settings."""
+    import copy
+    import pickle
+    import gstools as gs
+    rng = np.random.RandomState(ctx.seed + 1616)
+    viol, ev = [], 0
+
+    def build(kind, dim, seed):
+        kw = dict(dim=dim, var=1.3, len_scale=1.7)
+        if dim > 1:
+            kw.update(anis=[float(x) for x in rng.choice([0.5, 1.0, 1.6], size=dim - 1)])
+        if kind == "incompr":
+            return gs.SRF(gs.Gaussian(**kw), generator="VectorField", seed=seed, mode_no=16, mean_velocity=float(rng.choice([2.5, 0.4, -1.5])))
+        if kind == "fourier":
+            return gs.SRF(gs.Gaussian(**kw), generator="Fourier", seed=seed, period=[9.0 + i for i in range(dim)], mode_no=[4] * dim)
+        return gs.SRF(gs.Exponential(**kw, nugget=0.0), seed=seed, mode_no=16, mean=0.7)
+
+    for t in range(n):
+        for kind in kinds:
+            dim = int(rng.randint(2, 4)) if kind == "incompr" else int(rng.randint(1, 4))
+            seed = int(rng.randint(1, 10 ** 6))
+            desc = dict(kind=kind, dim=dim, seed=seed)
+            try:
+                srf = build(kind, dim, seed)
+                # (1) one large call against small calls
+                if t == 0:
+                    P = int(rng.choice([2 ** 16 + 17, 70000, 2 ** 17 + 5]))
+                    pos = rng.uniform(-20, 20, size=(dim, P))
+                    big = np.asarray(srf(pos), dtype=float)
+                    idx = rng.permutation(P)[:40]
+                    small = np.asarray(srf(pos[:, idx]), dtype=float)
+                    ev += 1
+                    if not _same(big[..., idx], small):
+                        viol.append({"key": f"{key_prefix}:{kind}:large-call", "case": dict(desc, points=P, subset=idx.tolist()[:10]),
+                                     "what": f"{kind}: the values of one call at {P} points differ from a call at a subset of these points "
+                                             f"(max abs diff {float(np.max(np.abs(big[..., idx] - small))):.3e})"})
+                # (2) duplicates
+                pos = rng.uniform(-5, 5, size=(dim, 7))
+                ref = np.asarray(srf(pos), dtype=float)
+                dups = {"deepcopy": lambda o: copy.deepcopy(o), "copy": lambda o: copy.copy(o),
+                        "pickle": lambda o: pickle.loads(pickle.dumps(o))}
+                for how, dup in dups.items():
+                    ev += 1
+                    try:
+                        s2 = dup(srf)
+                    except Exception as ex:          # not every object needs to be picklable: only a silent difference is a violation
+                        continue
+                    got = np.asarray(s2(pos), dtype=float)
+                    attrs_ok = all(np.array_equal(np.asarray(getattr(s2.generator, a, None), dtype=object), np.asarray(getattr(srf.generator, a, None), dtype=object))
+                                   for a in ("seed", "mode_no", "mean_u", "sampling") if hasattr(srf.generator, a))
+                    if not (_same(got, ref) and attrs_ok):
+                        viol.append({"key": f"{key_prefix}:{kind}:duplicate:{how}", "case": dict(desc, how=how, pos=pos.tolist()),
+                                     "what": f"{kind}: a {how} duplicate of the SRF gives a different field / has different generator settings than the original",
+                                     "got": got.tolist(), "want": ref.tolist()})
+                    g2 = dup(srf.generator)
+                    if hasattr(g2, "__call__"):
+                        iso = srf.model.isometrize(pos) if dim > 1 else pos
+                        a, b = np.asarray(g2(iso), dtype=float), np.asarray(srf.generator(iso), dtype=float)
+                        if not _same(a, b):
+                            viol.append({"key": f"{key_prefix}:{kind}:duplicate-generator:{how}", "case": dict(desc, how=how),
+                                         "what": f"{kind}: a {how} duplicate of the generator evaluates differently from the original"})
+            except Exception as ex:
+                viol.append({"key": f"{key_prefix}:{kind}:exception", "what": f"{type(ex).__name__}: {ex}", "case": desc})
+    return ev, viol
